@@ -116,6 +116,7 @@ type tree struct {
 	dump       func() string                 // ART only: canonical structure dump of the tree
 	tsearch    func(k []byte) bool           // ART only: search without the cache
 	tkeys      func(rev bool) [][]byte       // ART only: all leaves in iterator order
+	rbtCheck   func() (string, [][]byte)     // RBT only: red-black invariants on the real tree + in-order keys
 	pos        func() *unionstore.MemDBCheckpoint // end of the value log, no side effect (Checkpoint() remembers what it hands out)
 	stageCps   []*unionstore.MemDBCheckpoint
 	stageViews []view
@@ -148,6 +149,7 @@ func newTree(name string, entry, buf uint64) *tree {
 		t.keyByH = db.GetKeyByHandle
 		t.valByH = db.GetValueByHandle
 		t.pos = db.VerifPosition
+		t.rbtCheck = db.VerifCheck
 	}
 	return t
 }
@@ -822,6 +824,25 @@ func (wd *world) exec(line string) string {
 		}
 		*wd = *newWorld(e, b)
 		return "ok"
+	case "rbtchk":
+		// property op: the red-black invariants checked on the real RBT (no model of the rotations exists)
+		return guard(func() string {
+			bad, _ := wd.rbt.rbtCheck()
+			if bad != "" {
+				return "FAIL rbt-" + bad
+			}
+			return "ok"
+		})
+	case "rbtkeys":
+		return guard(func() string {
+			_, ks := wd.rbt.rbtCheck()
+			var sb strings.Builder
+			sb.WriteString(strconv.Itoa(len(ks)) + ":")
+			for _, k := range ks {
+				sb.WriteString(" " + showVal(k))
+			}
+			return sb.String()
+		})
 	case "tdump":
 		return guard(func() string { return wd.art.dump() })
 	case "tsearch":
